@@ -275,6 +275,22 @@ func ruleTypedProperties(c *core.Ctx) {
 					bad = "the new value is not decoded before the validator is called"
 				}
 				c.Check(bad == "", rule, key, ic.Pos(), "decode error ⇒ error, validator not called", bad)
+				// the verdict of the implementation's validator is what the hook answers: every
+				// return reached after the call hands back the call's own result (a verdict
+				// assigned to a shadowed variable is lost: the rejected write is accepted)
+				if cv, isCall := ic.(*ssa.Call); isCall && core.IsErrorType(cv.Type()) {
+					lost := ""
+					after := core.ReachFrom(core.After(in), nil, nil)
+					for _, ret := range core.Returns(fn) {
+						if !after.Has(ret) || len(ret.Results) == 0 {
+							continue
+						}
+						if !answersWith(core.RetVal(ret, len(ret.Results)-1), cv, after, 0) {
+							lost = "the hook returns, at " + c.Pos(ret.Pos()) + ", something else than what the implementation's validator answered: a write the service rejects is reported as accepted, then saved and announced"
+						}
+					}
+					c.Check(lost == "", rule, key+"/verdict", ic.Pos(), "the validator's answer is the hook's answer", lost)
+				}
 			}
 		case strings.HasPrefix(fn.Name(), "Get") && fn.Signature.Recv() != nil && fn.Signature.Results().Len() == 2:
 			// generated property getter: calls Property(name) then compares the signature string
@@ -570,4 +586,37 @@ func propertySteps(f, save *ssa.Function) []string {
 		}
 	}
 	return out
+}
+
+// answersWith: the value v returned after the call cv is cv's own result on
+// every edge that comes from the call (the other edges of a merge belong to
+// paths that did not make the call).
+func answersWith(v ssa.Value, cv *ssa.Call, after *core.Reach, depth int) bool {
+	if depth > 4 {
+		return false
+	}
+	v = core.Canon(v)
+	if v == ssa.Value(cv) {
+		return true
+	}
+	phi, ok := v.(*ssa.Phi)
+	if !ok {
+		return false
+	}
+	n := 0
+	for i, e := range phi.Edges {
+		pred := phi.Block().Preds[i]
+		from := pred == cv.Block()
+		if !from && len(pred.Instrs) > 0 && after.Has(pred.Instrs[len(pred.Instrs)-1]) {
+			from = true
+		}
+		if !from {
+			continue
+		}
+		n++
+		if !answersWith(e, cv, after, depth+1) {
+			return false
+		}
+	}
+	return n > 0
 }
